@@ -4,6 +4,7 @@ package main
 // Every random choice derives from one PCG state so that a case is reproducible from (seed, index).
 
 import (
+	"strings"
 	"fmt"
 	"math/rand/v2"
 	"sort"
@@ -210,7 +211,16 @@ func (g *Gen) Schema(depth int) M {
 		s["format"] = g.pick(formats)
 	case "emptyobj":
 		s["type"] = "object"
+		if g.p(0.25) {
+			// a format on an empty object, registered or not: still an empty object
+			s["format"] = g.pick(formats)
+			g.hit("schema:emptyobj-with-format")
+		}
 	case "empty":
+		if g.p(0.15) {
+			s["format"] = g.pick(formats)
+			g.hit("schema:untyped-with-format")
+		}
 	case "object":
 		if g.p(0.8) {
 			s["type"] = "object"
@@ -285,9 +295,18 @@ func (g *Gen) Schema(depth int) M {
 		case "not":
 			s["not"] = g.Schema(depth - 1)
 		case "patternProperties":
-			s["patternProperties"] = M{g.pick(patterns): g.Schema(depth - 1)}
+			// several entries: each must be indexed with its own schema
+			pp := M{}
+			for i, k := 0, 1+g.n(3); i < k; i++ {
+				pp[g.pick(patterns)] = g.Schema(depth - 1)
+			}
+			s["patternProperties"] = pp
 		case "definitions":
-			s["definitions"] = M{g.name(): g.Schema(depth - 1)}
+			nd := M{}
+			for _, nm := range g.distinctNames(1 + g.n(3)) {
+				nd[nm] = g.Schema(depth - 1)
+			}
+			s["definitions"] = nd
 		case "additionalItems":
 			if _, has := s["additionalItems"]; !has {
 				s["additionalItems"] = g.Schema(depth - 1)
@@ -411,7 +430,8 @@ func (g *Gen) Response() M {
 		r["description"] = ""
 		g.hit("resp:emptydesc")
 	default:
-		r["description"] = g.pick([]string{"ok", "not found", "a response"})
+		// blank (white space only) descriptions are descriptions
+		r["description"] = g.pick([]string{"ok", "not found", "a response", "ok", " ", "\n", "\t "})
 	}
 	if g.p(0.5) {
 		hs := M{}
@@ -508,6 +528,17 @@ func (g *Gen) Operation(ids *idPool, dupIDs bool) M {
 			break
 		}
 		g.hit("op:dupid")
+	case g.p(0.08):
+		// an id that reads like the "METHOD path" designation of an operation (possibly another one)
+		id := strings.ToUpper(g.pick(allMethods)) + " " + g.pick(pathPool)
+		if g.p(0.3) {
+			id = strings.ToLower(id)
+		}
+		if !ids.used[id] {
+			ids.used[id] = true
+			op["operationId"] = id
+			g.hit("op:id-like-method-path")
+		}
 	default:
 		for {
 			id := fmt.Sprintf("%s%s", g.pick([]string{"get", "list", "create", "del", "x"}), g.pick(simpleNames))
